@@ -36,11 +36,27 @@ Checks that missed a change at first were strengthened (noted below the table); 
 |---|---|---|---|---|
 """ + "\n".join(rows) + """
 
-Strengthening triggered by misses in the first round: C01 gained the partial-routing family (Tgap),
-C03 the "partially routable request *behind a pending one*" family, C02 the slow-reader *pipeline*
-(several replies crossing the ring/list boundary of the outbound buffer), C10 the slow-backend family,
-C04 the role-flip family (master with open connections demoted), C12 lengths that wrap 2^64 to the
-genuine value.
+Two rounds were run (20 + 20 changes; seeds `Cxx` and `R2-Cxx`; the second round was told the first round's
+idea for the same property and asked for a different code site and mechanism). **Every one of the 40 changes is
+reported by the check of the property it breaks (quick tier)**; most are also reported by neighbouring checks.
+
+Strengthening triggered by first-time misses (no check was loosened, none of these families fires on the
+unchanged tree):
+
+* round 1 — C01 partial-routing family (Tgap); C03 "partially routable request *behind a pending one*"; C02
+  slow-reader *pipeline* (several replies crossing the ring/list boundary of the outbound buffer); C10 slow-backend
+  family; C04 role-flip family (master with open connections demoted); C12 lengths that wrap 2^64 to the genuine
+  value.
+* round 2 — a modelling gap: the world never put two complete replies into one read; `CoalesceAll` /
+  `CoalesceChoice` now do (C02, C04 handshake + first reply in one segment, C07); `SlowMultiFlush` (three replies
+  released by one vectored write to a slow reader: C01, C02, C19 — C19 gained an E1 family); C05 E1 family (slot
+  the running proxy *assigns* inside multi-key requests); C06 pool key with an empty `{}` tag; C07 fragment
+  redirected first; C09 open-loop client that also reads slowly (EAGAIN with an empty backlog); C10 a client closed
+  for invalid input in the batch in which its valid request was routed; C11 more error texts (`-ERR invalid …`,
+  `-NOSCRIPT`, `-NOPERM`, `-MISCONF`, minimal `-ERR` / `-E`); C13 ASK cycles; C17 oversize requests of every
+  command family (split commands, scripts); C18 admission under interleavings (request already in the socket at
+  accept time); C20 replica re-parented by a topology update; memory faults inside proxy code (a write into
+  read-only memory) are turned into recoverable panics so that they are reported as `crash`, not as a dead worker.
 
 """ + own + "\n" + e3
 open(root+'/DESIGN.md','w').write(head+body+sec8+appA+app)
